@@ -655,3 +655,188 @@ Proof.
   destruct (negb (rect_intersects r (get_bounds path))); [eexists; reflexivity|].
   destruct (lines_internal_no_error gsi r path) as [rs ->]. eexists; reflexivity.
 Qed.
+
+(* ---------- identity on paths inside the rectangle ---------- *)
+(* Add drops a point equal to the one added last: consecutive duplicates collapse *)
+Fixpoint dedup (l : list pt) : list pt :=
+  match l with
+  | a :: t => match t with b :: _ => if pt_eqb a b then dedup t else a :: dedup t | [] => [a] end
+  | [] => []
+  end.
+
+Fixpoint no_consec_dup (l : list pt) : Prop :=
+  match l with
+  | a :: t => match t with b :: _ => a <> b /\ no_consec_dup t | [] => True end
+  | [] => True
+  end.
+
+Lemma dedup_id l : no_consec_dup l -> dedup l = l.
+Proof.
+  induction l as [|a t IH]; [reflexivity|]. destruct t as [|b t']; [reflexivity|].
+  intros [Hab Ht]. cbn [dedup]. apply pt_eqb_neq in Hab. rewrite Hab.
+  change (a :: dedup (b :: t') = a :: b :: t'). rewrite (IH Ht). reflexivity.
+Qed.
+
+Definition addp (acc : list pt) (p : pt) : list pt :=
+  match acc with last :: _ => if pt_eqb last p then acc else p :: acc | [] => [p] end.
+
+Lemma fold_addp l : forall a acc, fold_left addp l (a :: acc) = rev (dedup (a :: l)) ++ acc.
+Proof.
+  induction l as [|b t IH]; intros a acc; [reflexivity|].
+  cbn [fold_left addp]. change (dedup (a :: b :: t)) with (if pt_eqb a b then dedup (b :: t) else a :: dedup (b :: t)).
+  destruct (pt_eqb a b) eqn:E.
+  - apply pt_eqb_eq in E. subst b. rewrite IH.
+    destruct t as [|c t']; [reflexivity|].
+    (* dedup (a :: a :: c ..) unfolds the same way on both sides *) reflexivity.
+  - rewrite IH. cbn [rev]. rewrite <- app_assoc. reflexivity.
+Qed.
+
+Lemma add_all_single l : forall i ring, ring <> [] ->
+  exists ring', add_all i l [ring] = [ring'] /\ map fst ring' = fold_left addp l (map fst ring).
+Proof.
+  induction l as [|p t IH]; intros i ring Hne; [exists ring; split; reflexivity|].
+  cbn [add_all fold_left]. destruct ring as [|last ring0]; [congruence|].
+  cbn [add map addp fst]. destruct (pt_eqb (fst last) p) eqn:E.
+  - apply (IH (S i) (last :: ring0)). discriminate.
+  - destruct (IH (S i) ((p, SV i) :: last :: ring0)) as [ring' [E1 E2]]; [discriminate|].
+    exists ring'. split; [exact E1|]. rewrite E2. reflexivity.
+Qed.
+
+Lemma add_all_dedup p0 t : exists ring, add_all 0 (p0 :: t) [] = [ring] /\ map fst ring = rev (dedup (p0 :: t)).
+Proof.
+  cbn [add_all add]. destruct (add_all_single t 1 [(p0, SV 0)]) as [ring [E1 E2]]; [discriminate|].
+  exists ring. split; [exact E1|]. rewrite E2. cbn [map fst]. rewrite fold_addp, app_nil_r. reflexivity.
+Qed.
+
+Lemma skipn_nth {A} (l : list A) : forall i p, nth_error l i = Some p -> skipn i l = p :: skipn (S i) l.
+Proof.
+  induction l as [|a l IH]; intros [|i] p H; cbn in H; try discriminate.
+  - inversion H; reflexivity.
+  - cbn [skipn]. rewrite (IH i p H). reflexivity.
+Qed.
+
+Section Identity.
+  Variable gsi : pt -> pt -> pt -> pt -> pt -> bool * pt.
+  Variable r : rect.
+  Variable path : list pt.
+  Hypothesis Hn : (2 <= length path)%nat.
+  Hypothesis Hin : forall v, In v path -> in_rect r v.
+
+  Lemma scan_inside_all fuel : forall i rs, (length path - i < fuel)%nat -> (i <= length path)%nat ->
+    scan_inside r path fuel i rs = Ok (Inside, length path, add_all i (skipn i path) rs).
+  Proof.
+    induction fuel as [|f IH]; intros i rs Hf Hi; [lia|]. cbn [scan_inside].
+    destruct (i <=? highI path)%nat eqn:Ei.
+    - apply le_highI in Ei; [|lia]. destruct (nth_error path i) as [p|] eqn:Ep; [|apply nth_error_None in Ep; lia].
+      pose proof (Hin p (nth_error_In _ _ Ep)) as [Hx Hy].
+      replace (px p <? r_left r) with false by (symmetry; apply Z.ltb_ge; lia).
+      replace (px p >? r_right r) with false by (symmetry; rewrite Z.gtb_ltb; apply Z.ltb_ge; lia).
+      replace (py p >? r_bottom r) with false by (symmetry; rewrite Z.gtb_ltb; apply Z.ltb_ge; lia).
+      replace (py p <? r_top r) with false by (symmetry; apply Z.ltb_ge; lia).
+      rewrite (skipn_nth _ _ _ Ep). cbn [add_all]. apply IH; lia.
+    - assert (~ (i < length path)%nat) by (rewrite <- le_highI; [congruence|lia]).
+      replace i with (length path) by lia. rewrite skipn_all. reflexivity.
+  Qed.
+
+  Lemma lines_loop_all rs :
+    lines_loop gsi r path (main_fuel path) 1 Inside rs = Ok (add_all 1 (skipn 1 path) rs).
+  Proof.
+    unfold main_fuel. cbn [Nat.add Nat.mul]. rewrite Nat.add_succ_r. cbn [lines_loop].
+    replace (1 <=? highI path)%nat with true by (symmetry; apply le_highI; lia).
+    cbn [get_next_location]. rewrite scan_inside_all; [|unfold inner_fuel; lia|lia].
+    replace (highI path <? length path)%nat with true by (symmetry; apply Nat.ltb_lt; unfold highI; lia).
+    reflexivity.
+  Qed.
+
+  Lemma lines_internal_all : rect_is_empty r = false ->
+    lines_internal gsi r path = Ok (add_all 0 path []).
+  Proof.
+    intros He. unfold lines_internal. rewrite He.
+    replace (length path <? 2)%nat with false by (symmetry; apply Nat.ltb_ge; lia). cbn [orb].
+    apply rect_nonempty_ok in He. assert (Hok : rect_ok r) by (unfold rect_ok; lia).
+    destruct path as [|p0 t] eqn:Epath; [cbn in Hn; lia|]. rewrite <- Epath in *.
+    assert (Ep0 : nth_error path 0 = Some p0) by (rewrite Epath; reflexivity). rewrite Ep0.
+    assert (Hsk : skipn 1 path = t) by (rewrite Epath; reflexivity).
+    assert (Hall : add_all 0 path [] = add_all 1 t [[(p0, SV 0)]]) by (rewrite Epath; reflexivity).
+    (* a vertex of the path for which GetLocation returns true is Inside *)
+    assert (Hloc : forall p l, In p path -> get_location r p = (true, l) -> l = Inside).
+    { intros p l Hp El. pose proof (get_location_spec r p Hok) as S. rewrite El in S. destruct S as [[_ Sb] S].
+      assert (Hnb : ~ on_boundary r p) by (intros Hb; specialize (Sb Hb); discriminate).
+      destruct (Hin p Hp) as [Hx Hy]. unfold on_boundary, in_rect in Hnb.
+      destruct l; try reflexivity; exfalso; lia. }
+    destruct (get_location r p0) as [b0 loc0] eqn:El0. destruct b0; cbn [negb].
+    - rewrite (Hloc p0 loc0 (nth_error_In _ _ Ep0) El0). cbn [is_inside]. rewrite lines_loop_all, Hsk, Hall. reflexivity.
+    - destruct (skip_boundary r path (inner_fuel path) 1 Inside) as [[i prev]|] eqn:Es.
+      + destruct (highI path <? i)%nat eqn:Eh; [reflexivity|].
+        apply (skip_boundary_spec _ _ _ Hok) in Es. destruct Es as [_ [_ [Es|[p [Ep El]]]]].
+        * apply Nat.ltb_ge in Eh. lia.
+        * rewrite (Hloc p prev (nth_error_In _ _ Ep) El). cbn [is_inside]. rewrite lines_loop_all, Hsk, Hall. reflexivity.
+      + destruct (skip_boundary_ok r path) with (fuel := inner_fuel path) (i := 1%nat) (prev := Inside) as [i' [l' [E' _]]];
+          [lia|unfold inner_fuel; lia|lia|congruence].
+  Qed.
+End Identity.
+
+(* bounds of the path contain every vertex *)
+Lemma get_bounds_fold l : forall b0,
+  let B := fold_left (fun b v =>
+      mkRect (if px v <? r_left b then px v else r_left b)
+             (if py v <? r_top b then py v else r_top b)
+             (if px v >? r_right b then px v else r_right b)
+             (if py v >? r_bottom b then py v else r_bottom b)) l b0 in
+  (r_left B <= r_left b0 /\ r_top B <= r_top b0 /\ r_right b0 <= r_right B /\ r_bottom b0 <= r_bottom B) /\
+  (forall v, In v l -> in_rect B v).
+Proof.
+  induction l as [|a l IH]; intros b0; cbn [fold_left]; [split; [lia|intros ? []]|].
+  cbv zeta in *. match goal with |- context [fold_left ?f l ?b1] => specialize (IH b1); set (b1' := b1) in * end.
+  destruct IH as [IH1 IH2].
+  assert (Hb1 : r_left b1' <= r_left b0 /\ r_top b1' <= r_top b0 /\ r_right b0 <= r_right b1' /\ r_bottom b0 <= r_bottom b1'
+                /\ in_rect b1' a).
+  { unfold b1', in_rect; cbn [r_left r_top r_right r_bottom].
+    destruct (px a <? r_left b0) eqn:E1, (py a <? r_top b0) eqn:E2, (px a >? r_right b0) eqn:E3, (py a >? r_bottom b0) eqn:E4;
+      bool_hyps; lia. }
+  split; [lia|]. intros v [<-|Hv]; [|apply IH2; exact Hv].
+  unfold in_rect in *. lia.
+Qed.
+
+Lemma rect_intersects_bounds r path v : In v path -> in_rect r v -> rect_intersects r (get_bounds path) = true.
+Proof.
+  intros Hv [Hx Hy]. unfold get_bounds. pose proof (get_bounds_fold path (mkRect i64_max i64_max i64_lowest i64_lowest)) as H.
+  cbv zeta in H. destruct H as [_ H]. specialize (H v Hv). destruct H as [Bx By].
+  unfold rect_intersects. apply andb_true_iff. split; apply Z.leb_le; lia.
+Qed.
+
+Theorem lines_identity gsi r path :
+  rect_is_empty r = false -> (2 <= length path)%nat -> (forall v, In v path -> in_rect r v) ->
+  exists out, rect_clip_lines_g gsi r path = Ok out /\
+              untag out = if (2 <=? length (dedup path))%nat then [dedup path] else [].
+Proof.
+  intros He Hn Hin. unfold rect_clip_lines_g, lines_one_t. rewrite He.
+  destruct path as [|p0 t] eqn:Epath; [cbn in Hn; lia|]. rewrite <- Epath in *.
+  rewrite (rect_intersects_bounds r path p0); [|rewrite Epath; left; reflexivity|apply Hin; rewrite Epath; left; reflexivity].
+  cbn [negb]. rewrite (lines_internal_all gsi r path Hn Hin He).
+  eexists. split; [reflexivity|].
+  destruct (add_all_dedup p0 t) as [ring [E1 E2]]. rewrite Epath at 1. rewrite E1.
+  unfold rings_out, untag. cbn [rev app map filter].
+  rewrite rev_length. rewrite <- (map_length fst ring), E2, rev_length, <- Epath.
+  destruct (2 <=? length (dedup path))%nat; [|reflexivity].
+  cbn [map]. rewrite map_rev, E2, rev_involutive, <- Epath. reflexivity.
+Qed.
+
+Corollary lines_identity_nodup gsi r path :
+  rect_is_empty r = false -> (2 <= length path)%nat -> (forall v, In v path -> in_rect r v) -> no_consec_dup path ->
+  exists out, rect_clip_lines_g gsi r path = Ok out /\ untag out = [path].
+Proof.
+  intros He Hn Hin Hd. destruct (lines_identity gsi r path He Hn Hin) as [out [E U]].
+  exists out. split; [exact E|]. rewrite (dedup_id _ Hd) in U.
+  replace (2 <=? length path)%nat with true in U by (symmetry; apply Nat.leb_le; exact Hn). exact U.
+Qed.
+
+(* shorter paths (0 or 1 point) produce nothing *)
+Theorem lines_short gsi r path : (length path < 2)%nat -> rect_clip_lines_g gsi r path = Ok [].
+Proof.
+  intros Hn. unfold rect_clip_lines_g, lines_one_t, lines_internal.
+  destruct (rect_is_empty r); [reflexivity|].
+  destruct (negb (rect_intersects r (get_bounds path))); [reflexivity|].
+  replace (length path <? 2)%nat with true by (symmetry; apply Nat.ltb_lt; exact Hn).
+  cbn [orb]. reflexivity.
+Qed.
